@@ -138,10 +138,12 @@ def check_scope_mirroring(ctx, prog, tag, rule, ce, me):
     the second: macros there do not enclose an outer variable of that name, and undeclared_variables() omits it."""
     from ..brackets import GEN as _GEN
     closers_cg = {}
+    _openers, _alternators = branch_openers(prog)
     for f in {e.fn for e in ce}:
         bbs = set()
         for c in f.calls():
-            if c.name == _GEN + "::end_for_loop":
+            if c.name == _GEN + "::end_for_loop" or c.name in _alternators:
+                # the loop frame ends / the `else` of a conditional begins: what ran before may not have run at all
                 bbs.add(c.bb)
             if c.name in (_GEN + "::add", _GEN + "::add_with_span") and len(c.args) > 1 and any(
                     o.kind == "agg" and o.rv.get("variant") in ("PopFrame", "PopLoopFrame") for o in flow.origins(f, c.args[1])):
@@ -191,6 +193,98 @@ def check_scope_mirroring(ctx, prog, tag, rule, ce, me):
                        pairs[0][1].site)
     return n
 
+
+
+def branch_openers(prog):
+    """generator methods that open a conditional branch (they register a `PendingBlock::Branch`), by what they do;
+    the subset that first ends the branch before (an `else`: they emit the unconditional `Jump` over the alternative)"""
+    openers, alternators = set(), set()
+    for k, f in prog.fns.items():
+        if not k.startswith(G) or f.kind == "closure":
+            continue
+        branch = jump = False
+        for bb, i, s_ in f.all_stmts():
+            rv = s_.get("rv")
+            if rv and rv["k"] == "agg" and rv.get("variant") == "Branch" and "PendingBlock" in (rv.get("adt") or ""):
+                branch = True
+            if rv and rv["k"] == "agg" and rv.get("variant") == "Jump" and "Instruction" in (rv.get("adt") or ""):
+                jump = True
+        if branch:
+            openers.add(k)
+            if jump:
+                alternators.add(k)
+    return openers, alternators
+
+
+def scope_depths(f, push, pop):
+    """least number of tracker scopes open (pushes - pops since the function's entry) at the start of each block"""
+    least = {}
+    work = [(0, 0)]
+    while work:
+        bb, d = work.pop()
+        if bb in least and least[bb] <= d:
+            continue
+        if d < -4 or d > 8:
+            continue
+        least[bb] = d
+        d2 = d
+        t = f.term(bb)
+        if t["k"] == "call":
+            for c in f.calls():
+                if c.bb == bb:
+                    if c.name == push:
+                        d2 += 1
+                    elif c.name == pop:
+                        d2 -= 1
+        for x in f.succ[bb]:
+            work.append((x, d2))
+    return least
+
+
+def check_conditional_lists_scoped(ctx, prog, tag, rule, ce, me):
+    """W10: statements the engine runs only on one side of a conditional jump (the bodies of an `if` / `elif` / `else`, a
+    for-else body) may or may not run, so what they assign is not definitely assigned afterwards - nor in the alternative
+    branch.  The tracker must therefore walk every such list inside a scope of its own (push .. walk .. pop): otherwise a
+    macro declared later in the same scope does not enclose an outer variable of that name (the render context is asked
+    for it when the branch was not taken) and undeclared_variables() omits it."""
+    openers, _alt = branch_openers(prog)
+    if not openers:
+        return 0
+    dom_cache = {}
+    n = 0
+    seen = set()
+    for e in ce:
+        if e.kind != "eval" or not e.field or not _is_stmt_sink(prog, e.sink):
+            continue
+        f = e.fn
+        ops_ = [c.bb for c in f.calls() if c.name in openers]
+        if not ops_:
+            continue
+        if f.path not in dom_cache:
+            dom_cache[f.path] = cfg.dominators(f)
+        dom = dom_cache[f.path]
+        if not any(o in dom.get(e.bb, ()) for o in ops_):
+            continue
+        key = (e.T, e.field[:1])
+        if key in seen:
+            continue
+        seen.add(key)
+        ms = [m for m in me if m.kind == "eval" and m.T == e.T and m.field[:1] == e.field[:1]]
+        if not ms:
+            continue            # W1 / B9 report a list that is not walked at all
+        n += 1
+        ok = True
+        why = []
+        for m in ms:
+            least = scope_depths(m.fn, M + "AssignmentTracker::push", M + "AssignmentTracker::pop")
+            d = least.get(m.bb)
+            if d is None or d < 1:
+                ok = False
+                why.append("walked at scope depth %s in %s" % (d, m.fn.path.split("::")[-1]))
+        ctx.ob(rule, "%s%s.%s" % (tag, e.T.split("::")[-1], e.field[0]), ok,
+               "the engine runs %s.%s behind a conditional jump, so the tracker has to walk it in a scope of its own (push .. "
+               "pop); %s" % (e.T.split("::")[-1], e.field[0], "; ".join(why) or "it does"), ms[0].site)
+    return n
 
 
 LOOPSTATE = "minijinja::vm::loop_object::LoopState"
@@ -416,6 +510,8 @@ def run(ctx):
         # ---- W6
         n6 = check_scope_mirroring(ctx, prog, tag, "C18.W6.tracker-scope-ends-where-the-engine's-frame-ends", ce, me)
         ctx.floor("C18.W6 frame ends between two evaluated parts of a node" + tag, n6, 1)
+        n10 = check_conditional_lists_scoped(ctx, prog, tag, "C18.W10.conditionally-run-statements-are-walked-in-a-scope-of-their-own", ce, me)
+        ctx.floor("C18.W10 statement lists behind a conditional jump" + tag, n10, 2)
         # ---- W2
         n2 = 0
         for T in sorted(ct):
